@@ -15,13 +15,13 @@ fn scenario(words: &[u16]) -> Scenario {
     let mut cfg = Cfg::default();
     cfg.max_depth = d.pick(&[2usize, 0, 1, 5]);
     cfg.threads = d.pick(&[2usize, 1, 8]);
-    let p = Profile { max_cas: 12, max_tals: 1, max_objs: 2, versions: 1, fault_16: 0, obj_faults: false, cert_faults: false, pp_faults: false, vary_cfg: false, modules: 2 };
+    let p = Profile { max_cas: 12, max_tals: 1, max_objs: 2, versions: 1, fault_16: 0, obj_faults: false, cert_faults: false, pp_faults: false, vary_cfg: false, modules: 2, rrdp_16: 0, rrdp_repos: 2 };
     // a chain crossing the depth bound, with optional side branches and loop certificates
     let chain_len = (cfg.max_depth as i64 + d.pick(&[1i64, 0, 2, -1])).max(0) as usize + 1;
     let mut cas: Vec<Ca> = Vec::new();
     for i in 0..chain_len.min(9) {
         let versions = vec![decode_version(&mut d, &p, 0)];
-        cas.push(Ca { parent: if i == 0 { None } else { Some(i - 1) }, key: i, module: d.below(2), not_after: 86400 * 365, cert_fault: None, versions, extra_res: None, ta_alt: vec![], sia_under_parent_mft: false });
+        cas.push(Ca { parent: if i == 0 { None } else { Some(i - 1) }, key: i, module: d.below(2), not_after: 86400 * 365, cert_fault: None, versions, extra_res: None, ta_alt: vec![], sia_under_parent_mft: false, rrdp: None });
     }
     // extra children: plain siblings or cycle / loop certificates
     let extra = d.below(5);
@@ -39,15 +39,15 @@ fn scenario(words: &[u16]) -> Scenario {
             _ => Some(CertFault::CycleTo(up)),
         };
         let versions = vec![decode_version(&mut d, &p, 0)];
-        cas.push(Ca { parent: Some(parent), key: i, module: d.below(2), not_after: 86400 * 365, cert_fault, versions, extra_res: None, ta_alt: vec![], sia_under_parent_mft: false });
+        cas.push(Ca { parent: Some(parent), key: i, module: d.below(2), not_after: 86400 * 365, cert_fault, versions, extra_res: None, ta_alt: vec![], sia_under_parent_mft: false, rrdp: None });
         // cycles come in pairs so that a missing loop check multiplies work at every level
         if matches!(cert_fault, Some(CertFault::CycleTo(_))) && cas.len() < 14 {
             let j = cas.len();
             let versions = vec![decode_version(&mut d, &p, 0)];
-            cas.push(Ca { parent: Some(parent), key: j, module: 0, not_after: 86400 * 365, cert_fault, versions, extra_res: None, ta_alt: vec![], sia_under_parent_mft: false });
+            cas.push(Ca { parent: Some(parent), key: j, module: 0, not_after: 86400 * 365, cert_fault, versions, extra_res: None, ta_alt: vec![], sia_under_parent_mft: false, rrdp: None });
         }
     }
-    let steps = vec![Step { publish: vec![0; cas.len()], fail_modules: vec![], offline: false, stale: None, foreign_tal_key: vec![], ta_serve: vec![] }];
+    let steps = vec![Step { publish: vec![0; cas.len()], fail_modules: vec![], offline: false, stale: None, foreign_tal_key: vec![], ta_serve: vec![], fail_rrdp: vec![] }];
     Scenario { cfg, cas, steps }
 }
 
